@@ -423,6 +423,11 @@ func (w *W) intOrFork(s *State, v Value, limit int, what string) int {
 			return i
 		}
 	}
+	// every value in range was excluded: the path is dead unless a short feasibility query came
+	// back unknown; ask again with the full obligation budget before calling it a bound problem
+	if r := w.solver.Check(s.pc, false, QOblig); r.Status == "unsat" {
+		panic(pathEnd{"infeasible"})
+	}
 	panic(pathEnd{"bound: symbolic " + what + " outside [0," + fmt.Sprint(limit) + "]"})
 }
 
